@@ -15,7 +15,7 @@
    SPECDX <xmlhex>                        the descriptors the XML states (FileSpecXml.dx_of: xml_parse, extract_all)
        -> dx=<desc,desc,...> in document order (point clouds, then image blobs) | dx=none
    SPECDECX <file>                        the decoder with the XML plugged in (FileSpecXml.spec_wellformed_xml)
-       -> wfx=<0|1> dx=<...|none>
+       -> wfx=<0|1> proto=<0|1> dx=<...|none>      (proto: every prototype value within its element's limits)
    Float texts are parsed by OCaml's float_of_string (an oracle for the extractors; the descriptors hold no floats). *)
 open Conv
 open Drv_core
@@ -153,6 +153,8 @@ let run (kind : string) (toks : string list) : string option =
   | "SPECDECX" ->
     let f = resolve_dev (match toks with t :: _ -> t | [] -> "") in
     let wf = FileSpecXml.spec_wellformed_xml pf64 pf32 XmlExtract.f64_div_u32_bits f in
-    Some (Printf.sprintf "wfx=%d %s" (if wf then 1 else 0)
-            (if FileSpec.container_ok f then show_dx (FileSpec.file_xml f) else "dx=none"))
+    let cont = FileSpec.container_ok f in
+    Some (Printf.sprintf "wfx=%d proto=%d %s" (if wf then 1 else 0)
+            (if cont && FileSpecXml.xml_proto_values_ok pf64 pf32 (FileSpec.file_xml f) then 1 else 0)
+            (if cont then show_dx (FileSpec.file_xml f) else "dx=none"))
   | _ -> None
